@@ -564,8 +564,13 @@ def check_program(item, want_obs=OBS):
                 else:
                     tst = lambda p: still_fails(p, feeds, attrs, which, kc)  # noqa: E731
                     small, spent = shrink(prog, tst)
-                    small = canonical_statements(small, tst)
-                    small, spent2 = shrink(small, tst)
+                    for _round in range(3):
+                        before = sg.compact(small)
+                        small = canonical_statements(small, tst)
+                        small, spent2 = shrink(small, tst)
+                        spent += spent2
+                        if sg.compact(small) == before:
+                            break
                     f3, a3, label = canonical_valuation(small, feeds, attrs,
                                                         lambda p, f, a: still_fails(p, f, a, which, kc))
                     wl = graph_label(small, f3, a3, which, kc)
@@ -701,7 +706,8 @@ class Liveness:
             end_of_body = cur | extra
             body_in = self.block(body, end_of_body, record) - loopvar
             if record:
-                self._rec[id(s)] = ("Loop", sorted(_assigned(body) & (live_out | body_in | (hdr if t == "while" else set()))))
+                # (a while condition travels through the Loop's own condition channel unless it is live afterwards)
+                self._rec[id(s)] = ("Loop", sorted(_assigned(body) & (live_out | (body_in - (hdr if t == "while" else set())))))
             if self.zero_trip:
                 return live_out | body_in | hdr
             return (body_in | hdr) if t == "for" else (body_in | hdr)
